@@ -239,9 +239,19 @@ theorem noPair_ws (W : List Char) (h : W.all isWsC = true) : hasPair remarkPairs
       simp only [hasPair, ws_not_first a b h.1, Bool.false_or]
       exact ih h.2
 
+def nf3 (x : Char) : Bool := x != '-' && x != '(' && x != '*'
+
+theorem contains_nf3 (a b : Char) (h : nf3 a = true) : remarkPairs.contains (a, b) = false := by
+  simp only [nf3, Bool.and_eq_true, bne_iff_ne, ne_eq] at h
+  simp [remarkPairs, h.1.1, h.1.2, h.2]
+
+theorem ws_nf3 (c : Char) (h : isWsC c = true) : nf3 c = true := by
+  simp only [isWsC, Bool.or_eq_true, beq_iff_eq] at h
+  rcases h with ((rfl | rfl) | rfl) | rfl <;> decide
+
 /-- how the text ends, seen from the token that may still be open -/
 def End (T : List Char) : Option Tok → Prop
-  | none => T = [] ∨ ∃ c, T.getLast? = some c ∧ isWsC c = true
+  | none => T = [] ∨ ∃ c, T.getLast? = some c ∧ nf3 c = true
   | some t => ∃ d, (sp t).getLast? = some d ∧ T.getLast? = some d
 
 def CleanT (T : List Char) (lt : Option Tok) : Prop := hasPair remarkPairs T = false ∧ End T lt
@@ -274,7 +284,7 @@ theorem clean_ws {T : List Char} {lt : Option Tok} (h : CleanT T lt) (W : List C
     | some c => exact ⟨c, rfl⟩
   refine ⟨c, hc, ?_⟩
   simp only [List.all_eq_true] at hW
-  exact hW c (List.mem_of_getLast? hc)
+  exact ws_nf3 c (hW c (List.mem_of_getLast? hc))
 
 /-- appending a token whose own spelling is clean, after white space / at the start / directly after a token it may follow -/
 theorem clean_tok {T : List Char} {lt : Option Tok} (h : CleanT T lt) (t : Tok) (hw : TokWF t)
@@ -293,7 +303,7 @@ theorem clean_tok {T : List Char} {lt : Option Tok} (h : CleanT T lt) (t : Tok) 
     | none =>
       rcases h.2 with h0 | ⟨c, hc, hcw⟩
       · rw [h0] at hT; simp at hT
-      · rw [hT] at hc; cases hc; exact ws_not_first x c0 hcw
+      · rw [hT] at hc; cases hc; exact contains_nf3 x c0 hcw
     | some t0 =>
       obtain ⟨d0, hd0, hT0⟩ := h.2
       rw [hT] at hT0; cases hT0
@@ -415,12 +425,6 @@ theorem KC_run (as : List AFrag) : ∀ (st : PState) (TS : List Tok) (lt slt : O
     exact ⟨lt2, by simpa [run, List.flatMap_cons, List.append_assoc] using hK2, by simpa [run] using hC2⟩
 
 /-! ### a token's own spelling contains no remark opener or closer (string literals apart) -/
-
-def nf3 (x : Char) : Bool := x != '-' && x != '(' && x != '*'
-
-theorem contains_nf3 (a b : Char) (h : nf3 a = true) : remarkPairs.contains (a, b) = false := by
-  simp only [nf3, Bool.and_eq_true, bne_iff_ne, ne_eq] at h
-  simp [remarkPairs, h.1.1, h.1.2, h.2]
 
 theorem noPair_of_chars : ∀ (l : List Char), (∀ x ∈ l, nf3 x = true) → hasPair remarkPairs l = false := by
   intro l
@@ -621,5 +625,196 @@ theorem toks_sumExpr_paren (x : List Char) (ys : List (List Char)) (hne : ys ≠
     simp only [toks, hp, if_true, hr, hA, litToks]
     rw [List.map_cons, sumToks_cons, List.map_cons, sumToks_cons]
     simp [List.flatMap_append, List.map_append]
+
+/-! ### string literals: `breakLongStr` introduces no remark opener or closer -/
+
+theorem hasPair_split (ps : List (Char × Char)) : ∀ (A B : List Char), hasPair ps (A ++ B) = false →
+    hasPair ps A = false ∧ hasPair ps B = false ∧ boundary ps A B = false := by
+  intro A
+  induction A with
+  | nil => intro B h; exact ⟨rfl, by simpa using h, by simp [boundary]⟩
+  | cons a A' ih =>
+    intro B h
+    cases A' with
+    | nil =>
+      cases B with
+      | nil => exact ⟨rfl, rfl, by simp [boundary]⟩
+      | cons c B' =>
+        simp only [List.cons_append, List.nil_append, hasPair, Bool.or_eq_false_iff] at h
+        exact ⟨rfl, h.2, by simpa [boundary] using h.1⟩
+    | cons b A'' =>
+      simp only [List.cons_append, hasPair, Bool.or_eq_false_iff] at h
+      obtain ⟨h1, h2, h3⟩ := ih B h.2
+      refine ⟨by simp only [hasPair, h.1, h1, Bool.or_self], h2, ?_⟩
+      simpa [boundary, List.getLast?_cons_cons] using h3
+
+theorem second_safe (c : Char) (h : c = ' ' ∨ c = '\n' ∨ c = '\'' ∨ c = '(') (d : Char) : remarkPairs.contains (d, c) = false := by
+  rcases h with rfl | rfl | rfl | rfl <;> simp [remarkPairs]
+
+theorem boundary_head (A B : List Char) (h : ∀ c, B.head? = some c → c = ' ' ∨ c = '\n' ∨ c = '\'' ∨ c = '(') :
+    boundary remarkPairs A B = false := by
+  unfold boundary
+  cases hA : A.getLast? with
+  | none => rfl
+  | some d =>
+    cases B with
+    | nil => rfl
+    | cons c B' => simpa using second_safe c (h c rfl) d
+
+theorem boundary_last (A B : List Char) (d : Char) (hd : A.getLast? = some d) (hn : nf3 d = true) : boundary remarkPairs A B = false := by
+  unfold boundary
+  rw [hd]
+  cases B with
+  | nil => rfl
+  | cons c B' => simpa using contains_nf3 d c hn
+
+theorem breakSep_clean (n : Nat) : hasPair remarkPairs (breakSep n) = false := by
+  apply noPair_of_chars
+  intro x hx
+  simp only [breakSep, newlinePiece, List.mem_cons, List.mem_append, List.mem_replicate, List.mem_nil_iff, or_false] at hx
+  rcases hx with (rfl | rfl | ⟨_, rfl⟩) | rfl | rfl | rfl <;> decide
+
+theorem breakSep_last (n : Nat) : (breakSep n).getLast? = some '\'' := by
+  have : breakSep n = ('\'' :: newlinePiece n ++ ['+', ' ']) ++ ['\''] := by simp [breakSep, List.append_assoc]
+  rw [this, List.getLast?_append]; rfl
+
+theorem weave_clean (n : Nat) : ∀ (ps seps : List (List Char)) (A : List Char), seps.length = ps.length →
+    (∀ x ∈ seps, x = [] ∨ x = breakSep n) → hasPair remarkPairs (A ++ ps.flatten) = false →
+    hasPair remarkPairs (A ++ weave seps ps) = false := by
+  intro ps
+  induction ps with
+  | nil => intro seps A _ _ h; cases seps <;> simpa [weave] using h
+  | cons p ps ih =>
+    intro seps A hlen hseps h
+    cases seps with
+    | nil => simp at hlen
+    | cons sep seps =>
+      have hl : seps.length = ps.length := by simpa using hlen
+      have hs' : ∀ x ∈ seps, x = [] ∨ x = breakSep n := fun x hx => hseps x (List.mem_cons_of_mem _ hx)
+      rcases hseps sep (by simp) with rfl | rfl
+      · have := ih seps (A ++ p) hl hs' (by simpa [List.append_assoc] using h)
+        simpa [weave, List.append_assoc] using this
+      · simp only [List.flatten_cons] at h
+        obtain ⟨hA, hB, _⟩ := hasPair_split _ A (p ++ ps.flatten) h
+        have h1 : hasPair remarkPairs (A ++ breakSep n) = false :=
+          noPair_append _ A (breakSep n) hA (breakSep_clean n) (boundary_head A _ (by intro c hc; simp [breakSep] at hc; exact Or.inr (Or.inr (Or.inl hc.symm))))
+        have h2 : hasPair remarkPairs ((A ++ breakSep n) ++ (p ++ ps.flatten)) = false :=
+          noPair_append _ _ _ h1 hB (boundary_last _ _ '\'' (by rw [getLast?_append_ne (by simp [breakSep])]; exact breakSep_last n) (by decide))
+        have := ih seps (A ++ breakSep n ++ p) hl hs' (by simpa [List.append_assoc] using h2)
+        simpa [weave, List.append_assoc] using this
+
+theorem openParen_clean : hasPair remarkPairs openParen = false := by decide
+
+/-- the text `breakLongStr` adds contains a remark opener or closer only if the literal `'…'` itself does; and it ends with a
+character that cannot begin one -/
+theorem clean_str (st : PState) (s : List Char) (paren : Bool) (hT : hasPair remarkPairs st.text = false)
+    (hs : hasPair remarkPairs (sp (.str (escQ s))) = false) :
+    hasPair remarkPairs (breakLongStr st s paren).text = false
+      ∧ ∃ c, (breakLongStr st s paren).text.getLast? = some c ∧ nf3 c = true := by
+  have hq : hasPair remarkPairs ('\'' :: escQ s ++ ['\'']) = false := by simpa [sp] using hs
+  have hq1 : hasPair remarkPairs ('\'' :: escQ s) = false := (hasPair_split _ ('\'' :: escQ s) ['\''] (by simpa using hq)).1
+  rcases C07_breakLongStr_exact st s paren with ⟨lead, hlead, ht⟩ | ⟨opn, cls, first, seps, hoc, hfirst, hlen, hseps, ht⟩
+  · rw [ht]
+    have hX : hasPair remarkPairs (lead ++ ('\'' :: escQ s ++ ['\''])) = false := by
+      rcases hlead with rfl | rfl
+      · simpa using hq
+      · exact noPair_append _ [' '] _ rfl hq (boundary_last _ _ ' ' rfl (by decide))
+    refine ⟨?_, '\'', ?_, by decide⟩
+    · have := noPair_append _ st.text (lead ++ ('\'' :: escQ s ++ ['\''])) hT hX
+        (boundary_head _ _ (by rcases hlead with rfl | rfl <;> (intro c hc; simp at hc; subst hc; simp)))
+      simpa [List.append_assoc] using this
+    · rw [List.getLast?_append]; rfl
+  · -- split
+    obtain ⟨p1, ps, hps⟩ : ∃ p1 ps, splitDots (escQ s) = p1 :: ps := by
+      cases hp : splitDots (escQ s) with
+      | nil => rw [hp] at hlen; simp at hlen
+      | cons p1 ps => exact ⟨p1, ps, rfl⟩
+    have hflat : p1 ++ ps.flatten = escQ s := by
+      have := C07_splitDots_flatten (escQ s); rw [hps] at this; simpa using this
+    rw [hps] at hlen ht
+    have hl : seps.length = ps.length := by simpa using hlen
+    -- the part before the opening apostrophe
+    obtain ⟨F0, hF0, hfirst', hF0h⟩ : ∃ F0, F0.all isWsC = true ∧ first = F0 ++ ['\'']
+        ∧ (∀ c, (F0 ++ ['\'']).head? = some c → c = ' ' ∨ c = '\n' ∨ c = '\'' ∨ c = '(') := by
+      rcases hfirst with rfl | rfl | rfl
+      · exact ⟨[], rfl, rfl, by intro c hc; simp at hc; exact Or.inr (Or.inr (Or.inl hc.symm))⟩
+      · exact ⟨[' '], by decide, rfl, by intro c hc; simp at hc; exact Or.inl hc.symm⟩
+      · exact ⟨newlinePiece st.indent2, newlinePiece_ws _, rfl, by intro c hc; simp [newlinePiece] at hc; exact Or.inr (Or.inl hc.symm)⟩
+    have hopn : hasPair remarkPairs opn = false ∧ (∀ c, (opn ++ F0 ++ ['\'']).head? = some c → c = ' ' ∨ c = '\n' ∨ c = '\'' ∨ c = '(') := by
+      rcases hoc with ⟨rfl, _⟩ | ⟨_, rfl | rfl, _⟩
+      · exact ⟨rfl, by simpa using hF0h⟩
+      · exact ⟨openParen_clean, by intro c hc; simp [openParen] at hc; exact Or.inr (Or.inr (Or.inr hc.symm))⟩
+      · refine ⟨noPair_append _ _ _ (noPair_ws _ (newlinePiece_ws _)) openParen_clean (boundary_head _ _ (by intro c hc; simp [openParen] at hc; exact Or.inr (Or.inr (Or.inr hc.symm)))), ?_⟩
+        intro c hc; simp [newlinePiece] at hc; exact Or.inr (Or.inl hc.symm)
+    have hcls : hasPair remarkPairs cls = false ∧ cls.head? = some '\'' ∧ ∃ c, cls.getLast? = some c ∧ nf3 c = true := by
+      rcases hoc with ⟨_, rfl⟩ | ⟨_, _, rfl⟩
+      · exact ⟨by decide, rfl, ' ', rfl, by decide⟩
+      · exact ⟨by decide, rfl, ')', rfl, by decide⟩
+    have hPre : hasPair remarkPairs (opn ++ F0) = false :=
+      noPair_append _ opn F0 hopn.1 (noPair_ws F0 hF0) (boundary_ws_right opn F0 hF0)
+    have h1 : hasPair remarkPairs ((opn ++ F0) ++ ('\'' :: escQ s)) = false :=
+      noPair_append _ _ _ hPre hq1 (boundary_head _ _ (by intro c hc; simp at hc; exact Or.inr (Or.inr (Or.inl hc.symm))))
+    have h2 := weave_clean st.indent2 ps seps ((opn ++ F0) ++ '\'' :: p1) hl hseps
+      (by rw [← hflat] at h1; simpa [List.append_assoc] using h1)
+    have hW : opn ++ weave (first :: seps) (p1 :: ps) = (opn ++ F0) ++ '\'' :: p1 ++ weave seps ps := by
+      simp [weave, hfirst', List.append_assoc]
+    have h3 : hasPair remarkPairs (opn ++ weave (first :: seps) (p1 :: ps) ++ cls) = false := by
+      rw [hW]
+      exact noPair_append _ _ cls h2 hcls.1 (boundary_head _ _ (by intro c hc; rw [hcls.2.1] at hc; cases hc; exact Or.inr (Or.inr (Or.inl rfl))))
+    have hhead : ∀ c, (opn ++ weave (first :: seps) (p1 :: ps) ++ cls).head? = some c → c = ' ' ∨ c = '\n' ∨ c = '\'' ∨ c = '(' := by
+      intro c hc
+      apply hopn.2 c
+      rw [hW] at hc
+      simpa [List.append_assoc] using hc
+    obtain ⟨c, hc, hcn⟩ := hcls.2.2
+    have hne : cls ≠ [] := by intro h; rw [h] at hc; simp at hc
+    refine ⟨?_, c, ?_, hcn⟩
+    · rw [ht]
+      have := noPair_append _ st.text _ hT h3 (boundary_head _ _ hhead)
+      simpa [List.append_assoc] using this
+    · rw [ht, getLast?_append_ne hne]; exact hc
+
+/-- Part I with string literals, carrying the text invariant -/
+theorem KC_runS (xs : List SeqEl) : ∀ (st : PState) (TS : List Tok) (lt slt : Option Tok), K st TS lt → CleanT st.text lt → WfO lt →
+    (lt = none ∨ lt = slt) → SafeSeqS slt xs → (∀ x ∈ xs, ∀ t ∈ x.toks, hasPair remarkPairs (sp t) = false) →
+    ∃ ts lt', K (run st (xs.map SeqEl.frag)) (TS ++ ts) lt' ∧ CleanT (run st (xs.map SeqEl.frag)).text lt' := by
+  induction xs with
+  | nil => intro st TS lt slt hK hC _ _ _ _; exact ⟨[], lt, by simpa [run] using hK, by simpa [run] using hC⟩
+  | cons x xs ih =>
+    intro st TS lt slt hK hC hW hr hs hcl
+    have hcl' : ∀ y ∈ xs, ∀ t ∈ y.toks, hasPair remarkPairs (sp t) = false := fun y hy => hcl y (List.mem_cons_of_mem _ hy)
+    cases x with
+    | af a =>
+      obtain ⟨ws, hws, htext, hsafe, hp, hinv'⟩ := step_shape st TS lt slt a hK hr hs.1
+      have hbody : ∀ y ∈ a.body, hasPair remarkPairs (sp y.1) = false := by
+        intro y hy
+        exact hcl (.af a) (by simp) y.1 (by simp only [SeqEl.toks, AFrag.toks]; exact List.mem_map.mpr ⟨y, hy, rfl⟩)
+      have hl := lexInv_piece st.text TS lt hK.2.1 hK.2.2 ws hws a.body hsafe
+      have hc := clean_piece st.text lt hC hW ws hws a.body hsafe hbody
+      have hK1 : K (step st a.frag) (TS ++ a.toks) (endAfter (if ws = [] then lt else none) a.body) := by
+        refine ⟨hinv', ?_, ?_⟩
+        · rw [htext]; exact hl.1
+        · rw [htext]; exact hl.2
+      have hr1 := endAfter_refine a.body hp
+      obtain ⟨ts2, lt2, hK2, hC2⟩ := ih (step st a.frag) (TS ++ a.toks) _ (a.flow slt) hK1 (by rw [htext]; exact hc.1) hc.2 hr1 hs.2 hcl'
+      exact ⟨a.toks ++ ts2, lt2, by simpa [run, SeqEl.frag, List.append_assoc] using hK2, by simpa [run, SeqEl.frag] using hC2⟩
+    | strF s p =>
+      obtain ⟨ts1, lt1, hK1, hr1, _, hlast⟩ := K_str st TS lt slt s p hK hr hs.1
+      have htok : hasPair remarkPairs (sp (.str (escQ s))) = false := hcl (.strF s p) (by simp) _ (by simp [SeqEl.toks])
+      obtain ⟨hclean, c, hc, hcn⟩ := clean_str st s p hC.1 htok
+      have hC1 : CleanT (breakLongStr st s p).text lt1 := by
+        refine ⟨hclean, ?_⟩
+        rcases hr1 with rfl | rfl
+        · exact Or.inr ⟨c, hc, hcn⟩
+        · have hl := hlast (by simp)
+          refine ⟨'\'', ?_, hl⟩
+          simp only [sp]; rw [List.getLast?_append]; rfl
+      have hW1 : WfO lt1 := by
+        intro t0 h0
+        rcases hr1 with rfl | rfl
+        · cases h0
+        · cases h0; exact wf_str ⟨s, rfl⟩
+      obtain ⟨ts2, lt2, hK2, hC2⟩ := ih (breakLongStr st s p) (TS ++ ts1) lt1 (some (.str (escQ s))) hK1 hC1 hW1 hr1 hs.2 hcl'
+      exact ⟨ts1 ++ ts2, lt2, by simpa [run, SeqEl.frag, step, List.append_assoc] using hK2, by simpa [run, SeqEl.frag, step] using hC2⟩
 
 end StepModel.Express
